@@ -652,6 +652,141 @@ def witnesses(ctx):
             ctx.violation('pickle.dumps of a loaded object whose one-to-one partner is loaded raises RecursionError (Entity.__reduce__ passes the attribute values, including related entities, as constructor arguments, so reference cycles recurse forever)',
                           {'schema': w.src, 'objects': 'a = A(id=1); B(a=a)', 'call': 'a = A[1]; a.b.a; pickle.dumps(a)'}, observed=got, expected='a pickle', key=K_CYCLE)
 
+K_EMPTY_SEL = 'Entity.to_dict:empty-list-selector:TypeError'
+
+def attrs_tie(ctx):
+    """`EntityMeta._get_attrs_` (selection + per-entity cache) against the Lean model `runHist` on random call histories;
+    plus the property oracle on the real function: a warm cache never changes an answer"""
+    rng = ctx.rng
+    reqs, reals, infos = [], [], []
+    for rd in range(ctx.scale(8, 80)):
+        w = World(random_cfg(rng))
+        for en in 'ABMD':
+            E = w.E[en]
+            attrs = [[a.name, bool(a.is_collection), bool(a.lazy)] for a in E._attrs_]
+            names = [a[0] for a in attrs]
+            def sel():
+                r = rng.random()
+                if r < 0.3: return None, None
+                toks = [rng.choice(names + ['nope'] if rng.random() < 0.15 else names) for _ in range(rng.choice([1, 1, 2, 3]))]
+                if r < 0.4: return '', ''
+                if r < 0.45: return (), []
+                if r < 0.7:
+                    text = rng.choice([' ', ',', ', ', '  ']).join(toks)
+                    if rng.random() < 0.3: text = ' ' + text + ', '
+                    return text, text
+                return (tuple(toks) if rng.random() < 0.5 else list(toks)), list(toks)
+            hist = []
+            pool_q = []
+            for _ in range(rng.randint(4, 14)):
+                if pool_q and rng.random() < 0.35: hist.append(rng.choice(pool_q)); continue      # repeat an earlier call: a cache hit
+                (o_real, o_mod), (e_real, e_mod) = sel(), sel()
+                q = (o_real, e_real, rng.random() < 0.5, rng.random() < 0.4, o_mod, e_mod)
+                pool_q.append(q); hist.append(q)
+            E._attrnames_cache_.clear()
+            real = []; cold = []
+            for o, e, wc, wl, _, _ in hist:
+                def call():
+                    try: return {'ok': [a.name for a in E._get_attrs_(o, e, wc, wl)]}
+                    except AttributeError as x: return {'error': str(x).split()[-1]}
+                    except Exception as x: return {'raised': type(x).__name__}
+                real.append(call())
+            for o, e, wc, wl, _, _ in hist:      # the same calls, each on an emptied cache
+                E._attrnames_cache_.clear()
+                try: cold.append({'ok': [a.name for a in E._get_attrs_(o, e, wc, wl)]})
+                except AttributeError as x: cold.append({'error': str(x).split()[-1]})
+                except Exception as x: cold.append({'raised': type(x).__name__})
+            ctx.case(['get_attrs', en, attrs, [list(map(repr, h[:4])) for h in hist]], kind='oracle:get_attrs-cache')
+            if real != cold:
+                i = next(i for i in range(len(hist)) if real[i] != cold[i])
+                ctx.violation('EntityMeta._get_attrs_ (attribute selection of to_dict / Bag.config) returns a different selection from a warm cache than from a cold one',
+                              {'schema': w.src, 'entity': en, 'calls': [list(map(repr, h[:4])) for h in hist[:i + 1]]}, observed=real[i], expected=cold[i],
+                              key='get_attrs-cache:%s:%s' % (en, [list(map(repr, h[:4])) for h in hist[max(0, i - 1):i + 1]]))
+            reqs.append({'op': 'getattrs', 'attrs': attrs, 'history': [[h[4], h[5], h[2], h[3]] for h in hist]})
+            reals.append(real); infos.append((en, w.src))
+            for r in real: ctx.count('get_attrs:' + next(iter(r)))
+        w.db.disconnect()
+    if ctx.driver.ok:
+        outs = ctx.driver('C31', reqs)
+        for req, real, o, (en, src) in zip(reqs, reals, outs, infos):
+            ctx.case(['get_attrs-model', req], kind='tie:get_attrs')
+            if o.get('ok') != real:
+                ctx.divergence('model runHist (attribute selection + cache) and the real EntityMeta._get_attrs_ disagree', {'entity': en, 'schema': src, 'request': req}, model=o.get('ok', o), impl=real)
+    # witness: an EMPTY list selector
+    w = World(dict(a_pk='auto', b_pk='auto', m_pk='auto', b_a_required=False))
+    with db_session:
+        a = w.A(id=1, v=1)
+        ctx.case(['witness', 'empty-list-selector'], kind='oracle:witness')
+        exp = {k: norm_real(v) for k, v in a.to_dict().items()}
+        for kw in (dict(exclude=[]), dict(only=[])):
+            try: got = {k: norm_real(v) for k, v in a.to_dict(**kw).items()}
+            except Exception as e: got = 'raised %s: %s' % (type(e).__name__, e)
+            if got != exp:
+                ctx.violation("obj.to_dict(%s=[]) raises TypeError (unhashable type: 'list'): an empty list selector is falsy, so EntityMeta._get_attrs_ does not convert it to a tuple before it becomes part of the cache key" % next(iter(kw)),
+                              {'schema': 'class A(db.Entity): v = Optional(int)', 'call': 'A(id=1, v=1).to_dict(%s=[])' % next(iter(kw))}, observed=got, expected=exp, key=K_EMPTY_SEL)
+    w.db.disconnect()
+
+def pickle_tie(ctx):
+    """Entity.__reduce__ / unpickle_entity / _db_set_(unpickling=True) against the Lean model (Model/Pickle.lean): which objects
+    can be pickled, what the pickle carries, and — after the database was changed in between — which value each attribute of
+    the unpickled object has when the receiving session had / had not loaded the object already (or knows it as deleted)"""
+    rng = ctx.rng
+    table = {}
+    def enc(v): return table.setdefault(repr(v), len(table))
+    def snap(o): return sorted([a.name, enc(v)] for a, v in o._vals_.items() if not a.is_collection and a.pk_offset is None)
+    reqs = []; checks = []
+    for rd in range(ctx.scale(16, 160)):
+        w = World(dict(a_pk='auto', b_pk='auto', m_pk='auto', b_a_required=False))
+        with db_session: w.A(id=1, v=1, s='old', bio='b0')
+        how = rng.choice(['loaded', 'loaded', 'loaded+lazy', 'updated', 'modified', 'deleted'])
+        with db_session:
+            a = w.A[1]
+            if how == 'loaded+lazy': a.bio
+            if how == 'updated': a.v = 5; flush()
+            if how == 'modified': a.v = 5
+            if how == 'deleted': a.delete()
+            status, vals = a._status_, snap(a)
+            try: data = pickle.dumps(a); real_red = {'ok': {'pk': 1, 'd': vals}}
+            except Exception as e: data = None; real_red = {'error': type(e).__name__}
+            if how in ('modified', 'deleted'): core.rollback()
+        reqs.append({'op': 'reduce_entity', 'obj': {'pk': 1, 'status': status, 'vals': vals}})
+        checks.append(('reduce', how, real_red))
+        ctx.count('pickle-tie:reduce:' + status)
+        if data is None: w.db.disconnect(); continue
+        changed = rng.random() < 0.7
+        if changed:
+            with db_session: b = w.A[1]; b.v = 77; b.s = 'new'
+        pre = rng.choice(['none', 'none', 'loaded', 'loaded', 'loaded+lazy', 'deleted'])
+        with db_session:
+            sess = []
+            if pre != 'none':
+                b = w.A[1]
+                if pre == 'loaded+lazy': b.bio
+                if pre == 'deleted': b.delete()
+                sess = [{'pk': 1, 'status': b._status_, 'vals': snap(b)}]
+            o = pickle.loads(data)
+            real = {'pk': o._pkval_, 'deleted': o._status_ in core.del_statuses, 'vals': snap(o)}
+            core.rollback()
+        reqs.append({'op': 'unpickle_entity', 'session': sess, 'pickle': {'pk': 1, 'd': vals}})
+        checks.append(('unpickle', [how, 'db-changed' if changed else 'db-unchanged', 'session:' + pre], real))
+        ctx.count('pickle-tie:unpickle:session=%s:%s' % (pre, 'changed' if changed else 'unchanged'))
+        w.db.disconnect()
+    if not ctx.driver.ok: return
+    outs = ctx.driver('C31', reqs)
+    for req, (kind, info, real), o in zip(reqs, checks, outs):
+        ctx.case(['pickle-tie', kind, info, req], kind='tie:pickle-' + kind)
+        if kind == 'reduce':
+            model = o if 'error' in o else {'ok': {'pk': o['ok']['pk'], 'd': sorted(o['ok']['d'])}}
+            if ('error' in model) != ('error' in real) or ('ok' in real and model != real) or ('error' in real and model['error'] != real['error']):
+                ctx.divergence('model reduce and the real Entity.__reduce__ disagree', {'how': info, 'request': req}, model=model, impl=real)
+        else:
+            m = o.get('ok', {})
+            # the model keeps insertion order; compare as maps (first entry wins, as List.lookup reads them)
+            mv = {}
+            for n, v in m.get('vals', []): mv.setdefault(n, v)
+            if m.get('pk') != real['pk'] or m.get('deleted') != real['deleted'] or (not real['deleted'] and mv != dict(map(tuple, real['vals']))):
+                ctx.divergence('model unpickle and the real unpickle_entity/_db_set_ disagree', {'scenario': info, 'request': req}, model=m, impl=real)
+
 def state_oracle(ctx):
     rng = ctx.rng
     decode_queue = []
@@ -698,6 +833,8 @@ def run(ctx):
     key_tie(ctx)
     run_corpus(ctx)
     witnesses(ctx)
+    attrs_tie(ctx)
+    pickle_tie(ctx)
     state_oracle(ctx)
 
 def replay(ctx, data):
